@@ -430,6 +430,9 @@ impl McpManager {
             let mut server_ref_map = HashMap::new();
             Self::calculate_tool_ref(&mut server_ref_map, &value);
             self.update_tool_spec_ref_by_diff_map(&server_ref_map);
+            // SetServer entries replayed from the log look the id up by key before load_completed
+            self.server_key_to_id_map
+                .insert(value.unique_key.clone(), value.id);
             self.do_update_server(value);
         } else if record.tree.as_str() == MCP_TOOL_SPEC_TABLE_NAME.as_str() {
             let mut reader = BytesReader::from_bytes(&record.value);
